@@ -49,11 +49,26 @@ def factor_method(prog: Program) -> FuncInfo:
     """The Unit method Quantity.equiv_amount asks for the conversion factor (today: Unit._get_factor)."""
     ea = prog.method("Quantity", "equiv_amount")
     uc = prog.cls("Unit")
-    for n in _calls(ea):
-        if isinstance(n.func, ast.Attribute) and src_of(n.func.value) in ("self.unit", "self._unit"):
-            f = prog.lookup(uc, n.func.attr)
-            if f is not None:
-                return f
+    qc = prog.cls("Quantity")
+    cands = []
+    for t in ast.walk(ea.node):
+        # the factor is asked for inside the try that translates TypeError into IncompatibleUnitsError
+        scope = [t] if isinstance(t, ast.Try) else []
+        for tr in scope:
+            for n in ast.walk(ast.Module(body=tr.body, type_ignores=[])):
+                if isinstance(n, ast.Call) and isinstance(n.func, ast.Attribute):
+                    f = prog.lookup(uc, n.func.attr)
+                    if f is not None and f.kind == "method" and prog.lookup(qc, n.func.attr) is None:
+                        cands.append(f)
+    if not cands:
+        for n in _calls(ea):
+            if isinstance(n.func, ast.Attribute):
+                f = prog.lookup(uc, n.func.attr)
+                if f is not None and f.kind == "method" and not f.name.startswith("__") and \
+                        prog.lookup(qc, n.func.attr) is None:
+                    cands.append(f)
+    if cands:
+        return cands[0]
     raise AnalysisError("anchor vanished: conversion-factor method used by Quantity.equiv_amount")
 
 
@@ -72,14 +87,16 @@ def term_resolver(prog: Program) -> FuncInfo:
 
 def rate_lookup(prog: Program) -> FuncInfo:
     """The MoneyConverter method get_rate uses for one table lookup (today: _get_rate)."""
-    gr = prog.method("MoneyConverter", "get_rate")
     mc = prog.cls("MoneyConverter")
-    for n in _calls(gr):
-        if isinstance(n.func, ast.Attribute) and src_of(n.func.value) == "self":
-            f = prog.lookup(mc, n.func.attr)
-            if f is not None and f.kind == "method" and f.name not in ("get_rate",):
+    # the method that subscripts the rate table (reads self._rate_dict[...]); update() only writes it
+    for name, f in mc.methods.items():
+        if f.alias_of or name in ("update", "__init__"):
+            continue
+        for n in ast.walk(f.node):
+            if isinstance(n, ast.Subscript) and isinstance(n.ctx, ast.Load) and \
+                    isinstance(n.value, ast.Attribute) and n.value.attr == "_rate_dict":
                 return f
-    raise AnalysisError("anchor vanished: table lookup helper used by MoneyConverter.get_rate")
+    raise AnalysisError("anchor vanished: method reading MoneyConverter's rate table")
 
 
 def date_to_validity_table(prog: Program):
